@@ -178,3 +178,126 @@ Example C19_render_depth0_nonvacuous :
   let r := render ex_cfg0 50 (b "a.e") 2 [] None None 100 in
   rr_outcome r = Err e_notnumber /\ rr_file r = b "e.soy" /\ rr_line r = 4.
 Proof. vm_compute. repeat split; reflexivity. Qed.
+
+(* ================================================================== *)
+(* PARSE HALF.  Models: Model/Lexer.v (scanner), Model/Token.v (tree.next/backup/peek, the token
+   errorf takes its position from), Model/Parser.v (command-level parser; [PErr at_ class st]
+   records the token whose position is reported), after the repairs bb87cc7 and 228b3d2.
+
+   The full statement of DESIGN section 4 is
+
+     parse_error_position : parse name s = PErr t .. ->
+         file = name /\ t = the offending item /\ line = line_at s (t_pos t) /\ t_pos t <= |s|
+         /\ 1 <= line <= lines s /\ the text shows the same numbers
+
+   What is proved here (the rest rests on the enumeration of the harness and on its tie of
+   Model/Parser.v with the real parser on the faulted files):
+   - C19_parse_error_position_partial: an error returned by the model of parse.SoyFile carries a
+     token positioned inside the input (or comes from a quoted attribute expression without
+     enclosing text, which the parameters of the model cannot exclude), and the line computed
+     from any position is between 1 and lines s.  Missing: that the token is the offending one at
+     EVERY error site of the parser (proved for `unexpected`, for the P5 site textOrTag, and end to
+     end for the two lexical fault classes below); that the scanner's item positions never exceed
+     |s| (so that the guard in errorAt never turns an error into a crash) -- wt-lex's invariant.
+     The file name and the message text are not modelled (the harness checks them on every case).
+   - the two lexical fault classes, for EVERY scanner configuration: C19_stray_brace,
+     C19_illegal_char (+ the exact line: C19_stray_brace_line, C19_illegal_char_line). *)
+From Soy Require Import Model.Utf8 Model.Token Model.Lexer Model.RawText Model.ExprParser Model.Parser
+  Proofs.ErrTokProofs Proofs.ParseErrBound Proofs.LexErrPos.
+
+Theorem C19_parse_error_position_partial :
+  forall inlen lexq unq pexpr efuel fuel ts t c st,
+    po_result (parse_file inlen lexq unq pexpr efuel fuel ts) = PErr t c st ->
+    tok_inside inlen t c /\ forall src, 1 <= line_at src (t_pos t) <= lines src.
+Proof.
+  intros. split; [eapply parse_file_error_inside; eauto | intros; apply line_at_inside].
+Qed.
+Print Assumptions C19_parse_error_position_partial.
+
+Theorem C19_line_at_monotone : forall src p q, p <= q -> line_at src p <= line_at src q.
+Proof. exact line_at_monotone. Qed.
+Print Assumptions C19_line_at_monotone.
+
+(* `unexpected` reports at the token it is handed (repair bb87cc7) ... *)
+Theorem C19_unexpected_reports_its_token :
+  forall inlen A token ctx s r, @c_unexp inlen A token ctx s = r ->
+    (t_pos token <= inlen -> exists cls, r = CErr token cls s) /\ (inlen < t_pos token -> r = CCrash e_pslice).
+Proof. exact unexpected_reports_its_token. Qed.
+Print Assumptions C19_unexpected_reports_its_token.
+
+(* ... so that the P5 site -- textOrTag handed the scanner's error item -- reports that item ... *)
+Theorem C19_text_or_tag_error_item :
+  forall inlen lexq unq pexpr efuel pe w lf e until s,
+    t_typ e = pit_Error -> one_of pit_Error until = false -> (p_peek (c_p s) <= 2)%nat -> t_pos e <= inlen ->
+    exists s', text_or_tag inlen lexq unq pexpr efuel pe w (S lf) e until s = CErr e e_lexical s'.
+Proof. exact text_or_tag_error_item. Qed.
+Print Assumptions C19_text_or_tag_error_item.
+
+(* ... whereas errorf's "current token" after textOrTag's look-ahead past the last item is the zero
+   item of the closed channel: line 1, column 0 (ledger P5, the pinned behaviour) *)
+Theorem C19_P5_lookahead_past_the_end :
+  forall e,
+    let s := pst_init [e] in
+    let '(t1, s1) := p_next s in
+    let '(t2, s2) := p_next s1 in
+    t1 = e /\ err_tok (p_backup s2) = zero_tok /\
+    forall src, line_at src (t_pos zero_tok) = 1 /\ col_at src (t_pos zero_tok) = 0.
+Proof. exact P5_lookahead_past_the_end. Qed.
+Print Assumptions C19_P5_lookahead_past_the_end.
+
+(* the scanner, for every configuration in the text state / inside a tag *)
+Theorem C19_stray_brace :
+  forall ul ud inp fuel l txt rest,
+    Forall plain txt -> (0 <= l_pos l)%Z ->
+    drop (Z.to_nat (l_pos l)) inp = txt ++ 125 :: rest ->
+    exists l', run ul ud inp (Z.of_nat (length inp)) (S fuel) LText l = Ok l' /\
+               l_out l' = err_item (l_pos l + Z.of_nat (length txt) + 1) e_close_brace :: l_out l.
+Proof. exact stray_brace. Qed.
+Print Assumptions C19_stray_brace.
+
+Theorem C19_illegal_char :
+  forall ul ud inp ws fuel l c rest,
+    Forall space_byte ws -> (0 <= l_pos l)%Z ->
+    drop (Z.to_nat (l_pos l)) inp = ws ++ c :: rest -> c < 128 -> reaches_default (Z.of_N c) = true ->
+    exists l', run ul ud inp (Z.of_nat (length inp)) (length ws + S fuel) LInsideTag l = Ok l' /\
+               l_out l' = err_item (l_pos l + Z.of_nat (length ws) + 1) e_bad_char :: l_out l.
+Proof. exact illegal_char. Qed.
+Print Assumptions C19_illegal_char.
+
+Theorem C19_stray_brace_line :
+  forall pre post, line_at (pre ++ 125 :: post) (N.of_nat (length pre) + 1) = 1 + count_nl pre.
+Proof. exact stray_brace_line. Qed.
+Print Assumptions C19_stray_brace_line.
+
+Theorem C19_illegal_char_line :
+  forall pre c post, c <> 10 -> line_at (pre ++ c :: post) (N.of_nat (length pre) + 1) = 1 + count_nl pre.
+Proof. exact illegal_char_line. Qed.
+Print Assumptions C19_illegal_char_line.
+
+(* End to end, scanner model + parser model: a stray } on line 5, an illegal character in a tag on
+   line 5, end of input inside a template -- the reported token's line is 5, 5 and 6 (not 1). *)
+Definition ex_parse (s : bstr) : option (N * N * N) :=
+  match lex_items_tbl false s with
+  | Ok (ts, _) =>
+      match po_result (soy_file (N.of_nat (length s)) (fun _ => []) (fun _ => None) ts) with
+      | PErr t _ _ => Some (t_typ t, line_at s (t_pos t), col_at s (t_pos t))
+      | _ => None
+      end
+  | _ => None
+  end.
+Definition ex_file (line5 : bstr) : bstr :=
+  Eval vm_compute in b "{namespace a}
+
+/** doc */
+{template .t}
+" ++ line5.
+Example C19_parse_nonvacuous :
+  ex_parse (ex_file (b "x } y
+{/template}
+")) = Some (pit_Error, 5, 4)
+  /\ ex_parse (ex_file (b "{$a ^ 1}
+{/template}
+")) = Some (pit_Error, 5, 6)
+  /\ ex_parse (ex_file (b "hello
+")) = Some (pit_EOF, 6, 1).
+Proof. vm_compute. repeat split; reflexivity. Qed.
